@@ -582,7 +582,7 @@ def run(ctx, res):
         cases.append(run_sequence(rng, res, stats))
     for _ in range(ctx.n(300, 6000)):
         cases.append(run_poked(rng, res, stats))
-    cr = C.run_corr(ctx.pid, "seq", IMPORTS, "list contest * list step", cases, seq_lit, "agree_seq", shard=max(20, -(-len(cases) // 16)), show="show_seq")
+    cr = C.run_corr(ctx.pid, "seq", IMPORTS, "list contest * list step", cases, seq_lit, "agree_seq", shard=min(250, max(20, -(-len(cases) // 16))), show="show_seq")
     res.corr.append(("set_p_values / summarize_status / reset_p_values sequences vs Status.v", cr, seq_json))
     caps = [gen_cap(rng) for _ in range(ctx.n(300, 5000))]
     for c in caps:
